@@ -161,12 +161,14 @@ META = {
                    "header chunk shorter than 6 and raises (IOError) exactly when the tag is not MThd, the format number exceeds "
                    "2 or the time division is frames-per-second; one event of every kind (meta with a 1..4-byte length, one- "
                    "and two-parameter channel events, note-on with velocity 0 read as note-off) is decoded field by field and "
-                   "the byte count it reports is exactly what it consumed; "
+                   "the byte count it reports is exactly what it consumed; a track chunk of 0, 1 or 2 two-parameter events with "
+                   "one-byte delta times is read as exactly that many (delta, event) pairs, in order, consuming exactly the "
+                   "chunk; "
                    "60000000 div (60000000 div bpm) == bpm for every bpm 4..1000 (complete split). The event-stream-to-bars "
                    "reader (MIDI_to_Composition) is NOT proved: write-then-read over systematic and seeded compositions (bounded).",
         level_note=TB + " Assumed (bounded only): bytes_to_int == big-endian value (binascii.b2a_hex + int(.,16)), A_log.",
         explanation="Deductive: parse_varbyte_as_int, parse_track_header, parse_midi_file_header, parse_time_division, "
-                    "parse_midi_event, tempo round trip lemma, VLQ inverse through the two "
+                    "parse_midi_event, parse_track (small chunks), tempo round trip lemma, VLQ inverse through the two "
                     "contracts. Bounded: MIDI_to_Composition round trip via bounded/drivers/C17.py.",
     ),
     "C11": dict(
